@@ -180,39 +180,39 @@ def gen_cases(seed, tier):
     n = 2112 if tier == 'quick' else 126720
     cases = []
     for i in range(n):
-        op = OPS[i % 4]
-        asc = bool((i // 4) % 2)
-        neg = bool((i // 8) % 2)
-        k = i // 16
+        op = common.stratum(i, 171, OPS)
+        asc = bool(common.stratum(i, 172, 2))
+        neg = bool(common.stratum(i, 173, 2))
+        k = i
         if op == 'signal':
-            route = SIG_ROUTES[k % 3]
-            dclass = SIG_DCLASSES[k % 7]
+            route = common.stratum(k, 174, SIG_ROUTES)
+            dclass = common.stratum(k, 175, SIG_DCLASSES)
         else:
-            route = ROUTES[k % 6]
-            dclass = DCLASSES[k % 11]
+            route = common.stratum(k, 174, ROUTES)
+            dclass = common.stratum(k, 175, DCLASSES)
         F, T, df, dt, fch1 = _geometry(rng, op, route)
         c = dict(op=op, asc=asc, route=route, fchans=F, tchans=T, df=df, dt=dt, fch1=fch1,
-                 data_kind=DATA_KINDS[(k // 2) % 3], sub=int(rng.integers(2 ** 31)),
+                 data_kind=common.stratum(k, 176, DATA_KINDS), sub=int(rng.integers(2 ** 31)),
                  t0=float(np.round(rng.uniform(1.0e9, 1.6e9), 3)), mjd=float(np.round(rng.uniform(55000, 60000), 6)),
                  name='SRC%05d' % int(rng.integers(100000)))
         if route == 'derived':
             c['pad'] = [int(rng.integers(0, 33)), int(rng.integers(0, 33))]
-            c['base_file'] = bool((k // 6) % 2)
+            c['base_file'] = bool(common.stratum(k, 177, 2))
         if op == 'slice':
             c['bounds'], c['all_pairs'] = _bounds(rng, F)
-            c['method'] = bool(k % 2)
+            c['method'] = bool(common.stratum(k, 178, 2))
         elif op in ('dedrift', 'signal'):
             sgn = -1.0 if neg else 1.0
             c['dclass'] = dclass
             c['drift'] = sgn * _drift(rng, dclass, F, T, df, dt, signal=(op == 'signal'))
             if op == 'dedrift':
-                c['via'] = VIAS[(k // 3) % 4]
+                c['via'] = common.stratum(k, 179, VIAS)
                 c['drift2'] = -sgn * _drift(rng, 'within-limit', F, T, df, dt)
             else:
-                c['inject'] = ['own', 'setigen'][(k // 3) % 2]
-                c['frac'] = [0.0, 0.5, None][(k // 2) % 3]
+                c['inject'] = common.stratum(k, 180, ['own', 'setigen'])
+                c['frac'] = common.stratum(k, 181, [0.0, 0.5, None])
         else:
-            c['bright'] = bool(k % 2)
+            c['bright'] = bool(common.stratum(k, 182, 2))
         cases.append(c)
     return cases
 
